@@ -22,6 +22,7 @@ try:
         shutil.copy(f"{seed}/demo.rs", f"{wt}/tests/{name}.rs")
         with open(f"{wt}/Cargo.toml", "a") as f:
             f.write(f'\n[[test]]\nname = "{name}"\nrequired-features = [{m.group(2)}]\n')
+        feats = os.environ.get("CONFIRM_FEATURES", feats)
         cmd = f"cargo test --offline -j 8 --features {feats} --test {name}"
     else:
         # auto-discovered test on default features
